@@ -109,11 +109,28 @@ Qed.
 Print Assumptions aio_scan_marks_only_due.
 
 (* ... and, in the source as it is now (the form of the loop is read from aio.c on every
-   run), no timeout is ever delivered to an operation whose deadline has not passed *)
-Theorem aio_timeout_never_early : forall fdone ls s s',
+   run), the expire loop never DECIDES to time out an operation whose deadline has not passed
+   ([g_early] is set at the moment the loop, holding the lock, picks the result for a batch
+   entry).  Partial: the property also needs the decision to reach the operation it was made
+   for - see aio_timeout_stale_cancel_refuted below. *)
+Theorem aio_timeout_never_early_partial : forall fdone ls s s',
   g_early s = false -> arun C02_EXPIRE_RECHECK_FIXED fdone s ls = Some s' -> g_early s' = false.
 Proof. exact aio_timeout_not_early_holds. Qed.
-Print Assumptions aio_timeout_never_early.
+Print Assumptions aio_timeout_never_early_partial.
+
+(* the full statement - no operation completes with a timeout before its own deadline - is
+   false of the faithful model, in both forms of the loop: the loop drops its lock before it
+   calls the cancel function it took from operation 1; operation 1 completes by another cause,
+   its callback runs, operation 2 (deadline 1000) starts on the same aio, and the pending call
+   cancels operation 2 with A_TIMEDOUT while no clock reading exceeded 10.  On the real code:
+   known finding expire-stale-cancel-early-timeout (checks/c02_opkinds.py reproduces it). *)
+Theorem aio_timeout_stale_cancel_refuted : forall fixed fdone, exists s1 s2,
+  arun fixed fdone aio_init (firstn 9 stale_cancel_run) = Some s1 /\
+  a_expire s1 = Some 1000%N /\ p_owns s1 = true /\ g_subs s1 = 2 /\ g_cbs s1 = 1 /\
+  arun fixed fdone s1 (skipn 9 stale_cancel_run) = Some s2 /\
+  g_cbs s2 = 2 /\ a_result s2 = A_TIMEDOUT /\ g_early s2 = false /\ g_bad_result s2 = false.
+Proof. exact stale_cancel_delivers_early. Qed.
+Print Assumptions aio_timeout_stale_cancel_refuted.
 
 (* the pinned tree did deliver one (repaired by a fix: commit): operation 1 is marked by the
    scan; while the loop has its lock dropped for an earlier entry of the batch it completes
